@@ -236,7 +236,7 @@ fn child(args: &Args) -> ! {
             } else {
                 vws::live::WsConn::open(ws_t.unwrap(), None).is_ok()
             };
-            if up || done(&result) || t1.elapsed() > Duration::from_secs(15) {
+            if up || done(&result) || t1.elapsed() > Duration::from_secs(90) {
                 break;
             }
             std::thread::sleep(Duration::from_millis(30));
@@ -253,7 +253,7 @@ fn child(args: &Args) -> ! {
     }
     // poke: traffic and signals until the probe fired (or 12 s)
     let t2 = Instant::now();
-    while FIRED_AT_MS.load(Ordering::SeqCst) == 0 && !done(&result) && t2.elapsed() < Duration::from_secs(12) {
+    while FIRED_AT_MS.load(Ordering::SeqCst) == 0 && !done(&result) && t2.elapsed() < Duration::from_secs(45) {
         if sc.worker == "signals" {
             unsafe {
                 libc::kill(libc::getpid(), libc::SIGUSR1);
@@ -399,7 +399,7 @@ fn main() {
                     match ch.try_wait().unwrap() {
                         Some(st) => break format!("{:?}", st),
                         None => {
-                            if t0.elapsed() > Duration::from_secs(90 + sc.late_s()) {
+                            if t0.elapsed() > Duration::from_secs(240 + sc.late_s()) {
                                 let _ = ch.kill();
                                 let _ = ch.wait();
                                 break "killed by the harness watchdog".to_string();
